@@ -13,7 +13,8 @@ func init() {
 		"C24": {"(F1) chains fetched from a remote server are accepted only if, for every chain, the subject ISD-AS equals the queried one, the subject key id equals the queried one and the leaf validity covers the queried validity (or none was queried); the gRPC and the connect fetcher return chains only behind that check.",
 			"(K1) Signer.Sign writes and Verifier.Verify reads the verification key id member for member."},
 		"C25": {"(U1) a topology reload replaces every attribute of a surviving interface except RemoteID (link type and neighbour included): member-wise summary of Interface.updateTopoInfo; Interfaces.Update calls it for every surviving interface.",
-			"(L1) the leaves of the loop filter: buildHops appends one hop per AS entry on every iteration; filterAsLoop looks every hop up, reports one seen before and records every other one; filterIsdLoop skips a hop only if its ISD equals the previous hop's and updates the previous ISD whenever it records."},
+			"(L1) the leaves of the loop filter: buildHops appends one hop per AS entry on every iteration; filterAsLoop looks every hop up, reports one seen before and records every other one; filterIsdLoop skips a hop only if its ISD equals the previous hop's and updates the previous ISD whenever it records.",
+			"(B1) Filter.Apply: a hop whose AS is in AsBlackList or whose ISD is in IsdBlackList never reaches the successful return, both comparisons are made for every entry and every hop, the successful return lies behind the hop loop."},
 		"C28": {"(D0) every construction is a candidate for 'the one that expires last is kept': all segments of the three lists enter the graph under their own type, and Combine hands the lists to newDMG as they came (shared with C29 S1)."},
 		"C30": {"(X2) every hop field of a combined path is copied, all four members (ExpTime included), from one input hop field - the regular hop entry, or for a peering hop the peer entry: the expiry the pather filters on is the expiry of the hops that are in the path (C28's provenance rule)."},
 		"C31": {"(X1) RevInfo.Expiration/Timestamp/TTL and the module helpers they call compute on 64-bit values only (no +,-,*,<< below 64 bits, no narrowing conversion), and each result is computed from its raw members: 'for arbitrary lifetimes' includes those whose end crosses 2^32 seconds."},
@@ -32,6 +33,13 @@ func init() {
 		"C46": {"(H1) a Host is printed and parsed verbatim: String() prints netip.Addr.String of the stored address / SVC.String of the stored service, selected by Type(); String, ParseHost, HostIP and IP call nothing that changes the representation of the address."},
 		"C47": {"(H1) HopPredicateFromString stores as many interfaces as were written: the second comma part is appended under no condition on its value, on every successful path; ISD and AS are the parsed parts."},
 		"C48": {"(F1) FIFO content, by SSA value identity: each copy out of the ring is followed by exactly one clearing construct over exactly the copied range, the read/write index advances by what was copied and is reset to the wrapped piece's length, the wrapped piece continues the caller's list at [n1:] and is taken only if n1 < len(list)."},
+		"C05": {"(O1) every call of a processor method that reads p.peering - directly or through same-receiver calls - is dominated by the call of determinePeer() that computes it for this packet (reset() only zeroes it)."},
+		"C06": {"(O1) p.peering is read only after determinePeer() computed it for this packet (as for C05)."},
+		"C07": {"(A1) the router-alert flag is cleared and the hop field written back only when the alert is consumed: after those stores no return of pForward is reachable in handleIngressRouterAlert / handleEgressRouterAlert."},
+		"C19": {"(M1, bit footprints) MetaHdr.SerializeTo ORs five terms, each mentions one member, the bits it can set lie inside that member's field, the footprints are pairwise disjoint and the reserved bits stay zero; DecodeFromBytes reads every member from exactly its field."},
+		"C27": {"(Q3) every WHERE fragment of the path database's query builder is bound, in its own block, to the members its columns name (EndIsdID <- ISD(EndsAt[i]), StartAsID <- AS(StartsAt[i]), ...)."},
+		"C33": {"(V2) every certificate of the payload is tested against the TRC validity on every way round the certificate loop, the failing edge never reaches the successful return, and the ISD comparison is skipped only for a subject without ISD-AS."},
+		"C45": {"(Q3) fragment/value agreement of the query builder, as for C27."},
 	} {
 		extraExplain[k] = append(extraExplain[k], v...)
 	}
